@@ -129,3 +129,29 @@ func VerifRegistrySharedState(n int) {
 	vOutputBool("found", f1 != nil)
 	vReach("end")
 }
+
+// VerifResultStable (C13): a result handed to the caller stays what it was while later calls run (on the same or, by
+// the pool model, any goroutine): Bytes / String / Minify results are compared before and after two further calls.
+func VerifResultStable(n int) {
+	in1, in2 := vBytes("in1", n), vBytes("in2", n)
+	for _, b := range [][]byte{in1, in2} {
+		for i := range b {
+			vAssume(b[i] == 'a' || b[i] == 'b')
+		}
+	}
+	m := New()
+	m.AddFunc("text/inner", verifInnerStub)
+	out1, err1 := m.Bytes("text/inner", append([]byte(nil), in1...))
+	vAssert(err1 == nil, "no error")
+	keep := append([]byte(nil), out1...)
+	s1, _ := m.String("text/inner", string(in1))
+	out2, err2 := m.Bytes("text/inner", append([]byte(nil), in2...))
+	s2, _ := m.String("text/inner", string(in2))
+	vReach("after-call")
+	vOutput("out1", out1)
+	vOutput("out2", out2)
+	vAssert(err2 == nil, "no error")
+	vAssert(refEq(out1, keep), "the first result is not touched by later calls")
+	vAssert(s1 == string(keep) && refEq(out2, []byte(s2)), "Bytes and String agree")
+	vReach("end")
+}
